@@ -42,6 +42,13 @@ fn make_cfg(rng: &mut Rng) -> Cfg {
     for &nm in &names {
         ifs.push(Box::new(Recorder { name: nm, desc: leak(desc_of(nm)), log: log.clone() }));
     }
+    // the same name registered twice (two implementations under one name): still one routable
+    // interface, listed once; which of the two instances serves is not specified
+    if !names.is_empty() && rng.chance(1, 4) {
+        let nm = *rng.pick(&names);
+        let at = rng.below(ifs.len() + 1);
+        ifs.insert(at, Box::new(Recorder { name: nm, desc: leak(desc_of(nm)), log: log.clone() }));
+    }
     if with_gen {
         ifs.push(Box::new(gen::new(Box::new(GenImpl))));
     }
